@@ -42,18 +42,19 @@ def pair_specs(w, tier):
         for s2 in ('adjacent', 'overlap_last', 'same', 'before', 'before_overlap', 'far', 'zero'):
             for d2 in (3, 0, 4):
                 for r2 in ('exact', 'prev', 'overlap_prev', 'past'):
-                    for l2 in ('same', '+2', 'huge'):
+                    for l2 in ('same', '+2', '+1002', 'huge'):
                         yield (f, (s2, d2, r2, l2))
 
 
 def triple_specs(w, tier):
-    for f in [(0, 1, 'exact', 'same'), (4, 4, 'exact', '+1000')]:
+    for f in [(0, 1, 'exact', 'same'), (4, 4, 'exact', '+1000'), ((1 << 14) - 2, 2, 'exact', '+1002')]:
         for s2 in ('adjacent', 'far', 'overlap_last'):
             for r2 in ('exact', 'prev'):
                 for s3 in ('adjacent', 'same', 'before', 'far'):
                     for d3 in (3, 0):
                         for r3 in ('exact', 'prev', 'overlap_prev'):
                             yield (f, (s2, 3, r2, '+2'), (s3, d3, r3, 'same'))
+                            yield (f, (s2, 3, r2, '+1002'), (s3, d3, r3, '+1000'))
 
 
 def materialize(specs, w):
@@ -305,7 +306,12 @@ def work_asm(task, sieve, stats):
     imgs = {}
     for version in (0, 1, 2, 3):
         out = scratch() / f'asm-{w}-{version}.fjm'
-        assemble_files([REPO / prog], out, w=w, version=version)
+        try:
+            assemble_files([REPO / prog], out, w=w, version=version)
+        except Exception as e:  # noqa  (e.g. the program does not fit the 16-bit address space: not this property)
+            stats['asm_not_assemblable'] = stats.get('asm_not_assemblable', 0) + 1
+            stats['distinct_valid'] = 0
+            return stats, sieve.result(), {'skipped': f'{prog} w={w}: {type(e).__name__}'}
         r = Reader(out)
         imgs[version] = R2.normalize(*R2.reader_image(r))
         stats['runs'] += 1
